@@ -7,8 +7,21 @@ PROPS = {
     'C16': {'scans': [], 'trusted': [], 'bounded': [], 'not_claimed': []},
     'C12': {'scans': [], 'trusted': [], 'bounded': [], 'not_claimed': []},
     'C11': {'scans': [], 'trusted': [], 'bounded': [], 'not_claimed': []},
-    'C10': {'scans': [], 'trusted': [], 'bounded': [], 'not_claimed': []},
-    'C06': {'scans': [], 'trusted': [], 'bounded': [], 'not_claimed': []},
+    'C10': {'scans': [], 'trusted': [],
+            'bounded': [{'name': 'barrier_search', 'recipe': 'context_barrier',
+                         'functions': 'WorkChain step -> Waiting state -> completion callbacks -> next step (history over the event loop: '
+                                      'outside per-function contracts), Waiting.exit, Process.launch',
+                         'bound': '1..3 awaited futures, every completion order, at most one failing item, ToContext and to_context(), 4 modes '
+                                  '(spread over iterations, one iteration, completed before the wait, completed while paused then play): 264 histories'}],
+            'not_claimed': ['child processes launched with Process.launch (their future is awaited like any other: resolved())',
+                            'replacement of an earlier context value by a later step (plain attribute assignment)']},
+    'C06': {'scans': [], 'trusted': [],
+            'bounded': [{'name': 'wakeup_search', 'recipe': 'context_barrier',
+                         'functions': 'wake-up histories over the event loop (completion callbacks vs pause/play): outside per-function contracts',
+                         'bound': '1..3 awaited futures, every completion order, 4 modes incl. completion while paused then play: 264 histories'}],
+            'not_claimed': ['"continues once it is playing" is a liveness statement over the event loop: the contracts cover the safety half '
+                            '(the wake-up is recorded in the waiting future exactly once and survives an interruption of execute())',
+                            'interleavings with kill/pause inside Process.step (see C04/C05)']},
     'C07': {'scans': [], 'trusted': [],
             'bounded': [{'name': 'process_bundle_roundtrip', 'recipe': 'bundle_roundtrip',
                          'functions': 'Process.save_instance_state/load_instance_state, per-state save/load (process_states), ContextMixin, '
